@@ -337,6 +337,10 @@ func ReadFloat32ArrayFromBytes(data []byte) ([]float32, error) {
 		values = append(values, math.Float32frombits(uintElement))
 	}
 
+	if err == nil {
+		err = io.ErrUnexpectedEOF
+	}
+
 	if err != io.EOF {
 		return nil, err
 	}
@@ -364,6 +368,10 @@ func ReadFloat64ArrayFromBytes(data []byte) ([]float64, error) {
 
 		uintElement := binary.LittleEndian.Uint64(element)
 		values = append(values, math.Float64frombits(uintElement))
+	}
+
+	if err == nil {
+		err = io.ErrUnexpectedEOF
 	}
 
 	if err != io.EOF {
@@ -406,6 +414,10 @@ func ReadUint8ArrayFromBytes(data []byte) ([]uint8, error) {
 		values = append(values, element[0])
 	}
 
+	if err == nil {
+		err = io.ErrUnexpectedEOF
+	}
+
 	if err != io.EOF {
 		return nil, err
 	}
@@ -432,6 +444,10 @@ func ReadInt8ArrayFromBytes(data []byte) ([]int8, error) {
 		}
 
 		values = append(values, int8(element[0]))
+	}
+
+	if err == nil {
+		err = io.ErrUnexpectedEOF
 	}
 
 	if err != io.EOF {
@@ -462,6 +478,10 @@ func ReadUint16ArrayFromBytes(data []byte) ([]uint16, error) {
 		values = append(values, binary.LittleEndian.Uint16(element))
 	}
 
+	if err == nil {
+		err = io.ErrUnexpectedEOF
+	}
+
 	if err != io.EOF {
 		return nil, err
 	}
@@ -488,6 +508,10 @@ func ReadInt16ArrayFromBytes(data []byte) ([]int16, error) {
 		}
 
 		values = append(values, int16(binary.LittleEndian.Uint16(element)))
+	}
+
+	if err == nil {
+		err = io.ErrUnexpectedEOF
 	}
 
 	if err != io.EOF {
@@ -518,6 +542,10 @@ func ReadUint32ArrayFromBytes(data []byte) ([]uint32, error) {
 		values = append(values, binary.LittleEndian.Uint32(element))
 	}
 
+	if err == nil {
+		err = io.ErrUnexpectedEOF
+	}
+
 	if err != io.EOF {
 		return nil, err
 	}
@@ -544,6 +572,10 @@ func ReadInt32ArrayFromBytes(data []byte) ([]int32, error) {
 		}
 
 		values = append(values, int32(binary.LittleEndian.Uint32(element)))
+	}
+
+	if err == nil {
+		err = io.ErrUnexpectedEOF
 	}
 
 	if err != io.EOF {
@@ -574,6 +606,10 @@ func ReadUint64ArrayFromBytes(data []byte) ([]uint64, error) {
 		values = append(values, binary.LittleEndian.Uint64(element))
 	}
 
+	if err == nil {
+		err = io.ErrUnexpectedEOF
+	}
+
 	if err != io.EOF {
 		return nil, err
 	}
@@ -600,6 +636,10 @@ func ReadInt64ArrayFromBytes(data []byte) ([]int64, error) {
 		}
 
 		values = append(values, int64(binary.LittleEndian.Uint64(element)))
+	}
+
+	if err == nil {
+		err = io.ErrUnexpectedEOF
 	}
 
 	if err != io.EOF {
